@@ -340,11 +340,21 @@ func explore(e *executor, job *Job) {
 		Worker: job.Worker, Faults: map[string]int{}, Counters: map[string]int{}, Probes: map[string]int{},
 		SiteHits: map[string]int{}, SiteParks: map[string]int{}, Policies: map[string]int{}, KnownHits: map[string]int{},
 	}
-	known := map[string]bool{}
+	var knownKeys []string
 	for _, k := range job.Known {
 		if k.Property == p.ID && k.Kind == "finding" {
-			known[k.Key] = true
+			knownKeys = append(knownKeys, k.Key)
 		}
+	}
+	// a violation is a known finding if a listed key (a call site, an input
+	// signature) occurs in its key
+	known := func(key string) string {
+		for _, k := range knownKeys {
+			if k != "" && strings.Contains(key, k) {
+				return k
+			}
+		}
+		return ""
 	}
 	hashes := map[uint64]struct{}{}
 	var hashLines []byte
@@ -458,8 +468,8 @@ func explore(e *executor, job *Job) {
 			if p.Isolated {
 				queue = append(append([]int{}, idxs[k+1:]...), queue...)
 			}
-			if known[out.Key] {
-				res.KnownHits[out.Key]++
+			if kk := known(out.Key); kk != "" {
+				res.KnownHits[kk]++
 				break
 			}
 			var prefix []runSpec
